@@ -49,7 +49,7 @@ func specHexDigit(n rune) byte {
 //@   auto
 //@   requires quote == 34
 //@   ensures [C05.seg-grow] grown(result, buf) && len(result) > len(buf) && forall(k, 0, len(buf), result[k] == old(buf[k]))
-//@   ensures [C05.seg-nocontrol] forall(k, len(buf), len(result), result[k] >= 32 && result[k] != 127)
+//@   ensures [C05.C06.seg-nocontrol] forall(k, len(buf), len(result), result[k] >= 32 && result[k] != 127)
 //@   ensures [C05.seg-quote] forall(k, len(buf), len(result), implies(result[k] == 34, k == len(buf)+1 && result[len(buf)] == 92))
 //@   ensures [C05.seg-backslash] forall(k, len(buf), len(result), implies(result[k] == 92, k == len(buf) || (k == len(buf)+1 && result[len(buf)] == 92)))
 //@   ensures [C04.json-escape] implies(result[len(buf)] == 92, result[len(buf)+1] == 34 || result[len(buf)+1] == 92 || result[len(buf)+1] == 98 || result[len(buf)+1] == 102 || result[len(buf)+1] == 110 || result[len(buf)+1] == 114 || result[len(buf)+1] == 116 || result[len(buf)+1] == 117)
@@ -98,7 +98,7 @@ func specHexDigit(n rune) byte {
 //@   requires quote == 34
 //@   ensures [C05.q-grow] grown(result, buf) && len(result) >= len(buf) + 2 && forall(k, 0, len(buf), result[k] == old(buf[k]))
 //@   ensures [C05.q-delims] result[len(buf)] == 34 && result[len(result)-1] == 34
-//@   ensures [C05.q-nocontrol] forall(k, len(buf), len(result), result[k] >= 32 && result[k] != 127)
+//@   ensures [C05.C06.q-nocontrol] forall(k, len(buf), len(result), result[k] >= 32 && result[k] != 127)
 //@   ensures [C05.q-quote] forall(k, len(buf)+1, len(result)-1, implies(result[k] == 34, result[k-1] == 92))
 //@   loop 1 invariant [C05.q-suffix] len(s) <= old(len(s)) && same(s, old(s)[old(len(s))-len(s):])
 //@   at call appendEscapedRune assert [C05.q-feed] callee.quote == quote && implies(s[0] < 128, callee.r == s[0] && width == 1)
@@ -109,17 +109,17 @@ func specHexDigit(n rune) byte {
 //@ func (*PrintCtx).appendQuotedString
 //@   props C02 C04 C05 C06
 //@   auto
-//@   ensures [C05.quoted] grown(s.buf, old(s.buf)) && len(s.buf) >= old(len(s.buf)) + 2 && forall(k, 0, old(len(s.buf)), s.buf[k] == old(s.buf[k])) && s.buf[old(len(s.buf))] == 34 && s.buf[len(s.buf)-1] == 34 && forall(k, old(len(s.buf)), len(s.buf), s.buf[k] >= 32 && s.buf[k] != 127) && forall(k, old(len(s.buf))+1, len(s.buf)-1, implies(s.buf[k] == 34, s.buf[k-1] == 92))
+//@   ensures [C05.C06.quoted] grown(s.buf, old(s.buf)) && len(s.buf) >= old(len(s.buf)) + 2 && forall(k, 0, old(len(s.buf)), s.buf[k] == old(s.buf[k])) && s.buf[old(len(s.buf))] == 34 && s.buf[len(s.buf)-1] == 34 && forall(k, old(len(s.buf)), len(s.buf), s.buf[k] >= 32 && s.buf[k] != 127) && forall(k, old(len(s.buf))+1, len(s.buf)-1, implies(s.buf[k] == 34, s.buf[k-1] == 92))
 
 //@ func (*PrintCtx).pcAppendQuotedStringValue
 //@   props C02 C04 C05 C06
 //@   auto
-//@   ensures [C05.quoted] grown(s.buf, old(s.buf)) && len(s.buf) >= old(len(s.buf)) + 2 && forall(k, 0, old(len(s.buf)), s.buf[k] == old(s.buf[k])) && s.buf[old(len(s.buf))] == 34 && s.buf[len(s.buf)-1] == 34 && forall(k, old(len(s.buf)), len(s.buf), s.buf[k] >= 32 && s.buf[k] != 127) && forall(k, old(len(s.buf))+1, len(s.buf)-1, implies(s.buf[k] == 34, s.buf[k-1] == 92))
+//@   ensures [C05.C06.quoted] grown(s.buf, old(s.buf)) && len(s.buf) >= old(len(s.buf)) + 2 && forall(k, 0, old(len(s.buf)), s.buf[k] == old(s.buf[k])) && s.buf[old(len(s.buf))] == 34 && s.buf[len(s.buf)-1] == 34 && forall(k, old(len(s.buf)), len(s.buf), s.buf[k] >= 32 && s.buf[k] != 127) && forall(k, old(len(s.buf))+1, len(s.buf)-1, implies(s.buf[k] == 34, s.buf[k-1] == 92))
 
 //@ func (*PrintCtx).pcQuoteValue
 //@   props C02 C04 C05 C06
 //@   auto
-//@   ensures [C05.quoted] grown(s.buf, old(s.buf)) && len(s.buf) >= old(len(s.buf)) + 2 && forall(k, 0, old(len(s.buf)), s.buf[k] == old(s.buf[k])) && s.buf[old(len(s.buf))] == 34 && s.buf[len(s.buf)-1] == 34 && forall(k, old(len(s.buf)), len(s.buf), s.buf[k] >= 32 && s.buf[k] != 127) && forall(k, old(len(s.buf))+1, len(s.buf)-1, implies(s.buf[k] == 34, s.buf[k-1] == 92))
+//@   ensures [C05.C06.quoted] grown(s.buf, old(s.buf)) && len(s.buf) >= old(len(s.buf)) + 2 && forall(k, 0, old(len(s.buf)), s.buf[k] == old(s.buf[k])) && s.buf[old(len(s.buf))] == 34 && s.buf[len(s.buf)-1] == 34 && forall(k, old(len(s.buf)), len(s.buf), s.buf[k] >= 32 && s.buf[k] != 127) && forall(k, old(len(s.buf))+1, len(s.buf)-1, implies(s.buf[k] == 34, s.buf[k-1] == 92))
 
 // string values: quoted and escaped in logfmt and JSON. In colored mode they are written as they are
 // (KNOWN FINDING for C06: raw control and escape bytes of a value reach the terminal).
